@@ -1,1 +1,5 @@
-//! Kani harnesses compiled inside radicle-node (module `verif_kani` of the hooked file).
+//! Kani harnesses compiled inside `radicle_node::service` (module `verif_kani`).
+#![allow(dead_code, unused_imports)]
+
+#[path = "/verif/harness/incrate/service_c29.rs"]
+mod c29;
